@@ -156,7 +156,7 @@ func (s *oStore) Read(ctx context.Context, from eventbus.Offset, limit int) ([]*
 	return s.inner.Read(ctx, from, limit)
 }
 
-//verif:entry property=C20 tier=both bounds="OpenTelemetry implementation (otel/observability.go) over recording tracer/meter providers: n<=N handlers each with arbitrary Once/Async/filter(reject)/panics flags; P publishes each with live or already-cancelled context; persistence absent / succeeding / failing per publish" cover="checked" N_quick=2 N_thorough=3 P_quick=2 P_thorough=2
+//verif:entry property=C20 tier=both bounds="OpenTelemetry implementation (otel/observability.go) over recording tracer/meter providers: n<=N handlers each with arbitrary Once/Async/filter(reject)/panics flags; P publishes each with live or already-cancelled context, one handler may cancel the context of the publish it runs under; persistence absent / succeeding / failing per publish" cover="checked" N_quick=2 N_thorough=3 P_quick=2 P_thorough=2
 func harnessC20OTel() {
 	N, P := vParam("N", 2), vParam("P", 2)
 	rec := &recorder{counters: map[string]int64{}, hists: map[string]int{}}
@@ -175,7 +175,10 @@ func harnessC20OTel() {
 	n := vInt(0, N)
 	var mu sync.Mutex
 	runs, panicked := 0, 0
+	cancelBy := vInt(-1, n-1) // this handler cancels the context of the publish it is running under
+	var curCancel context.CancelFunc
 	for i := 0; i < n; i++ {
+		i := i
 		once, async, reject, panics := vBool(), vBool(), vBool(), vBool()
 		var so []eventbus.SubscribeOption
 		if once {
@@ -193,7 +196,11 @@ func harnessC20OTel() {
 			if panics {
 				panicked++
 			}
+			cc := curCancel
 			mu.Unlock()
+			if i == cancelBy && cc != nil {
+				cc()
+			}
 			if panics {
 				panic("boom")
 			}
@@ -201,12 +208,14 @@ func harnessC20OTel() {
 	}
 	attempts, failures := 0, 0
 	for p := 0; p < P; p++ {
-		ctx := context.Background()
+		ctx, cancel := context.WithCancel(context.Background())
+		defer cancel()
 		if vBool() {
-			c, cancel := context.WithCancel(ctx)
 			cancel()
-			ctx = c
 		}
+		mu.Lock()
+		curCancel = cancel
+		mu.Unlock()
 		if persist {
 			out := vInt(0, 1)
 			st.outcomes = append(st.outcomes, out)
